@@ -51,7 +51,7 @@ func main() {
 	}
 	bad := 0
 	for _, u := range units {
-		text, err := translateUnit(*repo, u)
+		text, err := translateWithHelpers(*repo, u)
 		if err != nil { // this unit only: its previous Gen file stays, the other units are still written
 			fmt.Printf("GOTRANS-FAIL %s %s\n", u.name, strings.ReplaceAll(err.Error(), "\n", " "))
 			bad++
@@ -71,8 +71,34 @@ func main() {
 	}
 }
 
-// translateUnit parses the non-test files of one package directory and translates the listed functions.
-func translateUnit(repo string, u unit) (text string, err error) {
+// translateWithHelpers: functions of the package that the listed functions call (an extracted helper, say) are
+// translated too when they fit the subset (auxiliary definitions, unfolded by the lemmas); one that does not fit
+// becomes a Section Variable like any other untranslated callee.
+func translateWithHelpers(repo string, u unit) (string, error) {
+	skip := map[string]bool{}
+	for _, k := range u.foreign {
+		skip[k] = true
+	}
+	for {
+		text, blame, err := translateUnit(repo, u, skip)
+		if err == nil || blame == "" {
+			return text, err
+		}
+		if blame == "*" { // the failure is in a listed function: once more without any helper
+			text, _, err2 := translateUnit(repo, u, nil)
+			if err2 == nil {
+				return text, nil
+			}
+			return "", err
+		}
+		skip[blame] = true
+	}
+}
+
+// translateUnit parses the non-test files of one package directory and translates the listed functions and, unless
+// skip is nil, the helpers they call that are not in skip.  blame: the helper to leave out next time ("*": any).
+func translateUnit(repo string, u unit, skip map[string]bool) (text string, blame string, err error) {
+	var t *tr
 	defer func() {
 		if r := recover(); r != nil {
 			f, ok := r.(failure)
@@ -80,15 +106,21 @@ func translateUnit(repo string, u unit) (text string, err error) {
 				panic(r)
 			}
 			err = fmt.Errorf("%s", f.msg)
+			if t != nil && skip != nil && len(t.aux) > 0 {
+				blame = "*"
+				if t.cur != nil && t.aux[t.cur.key] {
+					blame = t.cur.key
+				}
+			}
 		}
 	}()
-	t := &tr{unit: u, fset: token.NewFileSet(), structs: map[string]*ast.StructType{}, decls: map[string]*ast.FuncDecl{},
+	t = &tr{aux: map[string]bool{}, unit: u, fset: token.NewFileSet(), structs: map[string]*ast.StructType{}, decls: map[string]*ast.FuncDecl{},
 		consts: map[string]ast.Expr{}, vars: map[string]ast.Expr{}, fns: map[string]*fn{}, recs: map[string][]field{},
 		svarType: map[string]string{}, effArgs: map[string][]string{}, constDone: map[string]bool{}, tparams: map[string]bool{}, ifaces: map[string]*ast.InterfaceType{}, named: map[string]ast.Expr{}, constIota: map[string]int{}}
 	dir := filepath.Join(repo, u.dir)
 	names, e := filepath.Glob(filepath.Join(dir, "*.go"))
 	if e != nil || len(names) == 0 {
-		return "", fmt.Errorf("%s: no Go files", dir)
+		return "", "", fmt.Errorf("%s: no Go files", dir)
 	}
 	sort.Strings(names)
 	if u.hints != "" { // declarations of what the listed functions use from other packages (pkg.Name is written pkg_Name)
@@ -104,7 +136,7 @@ func translateUnit(repo string, u unit) (text string, err error) {
 		}
 		f, e := parser.ParseFile(t.fset, n, src, 0)
 		if e != nil {
-			return "", fmt.Errorf("%s: does not parse: %v", n, e)
+			return "", "", fmt.Errorf("%s: does not parse: %v", n, e)
 		}
 		for _, d := range f.Decls {
 			switch d := d.(type) {
@@ -150,15 +182,75 @@ func translateUnit(repo string, u unit) (text string, err error) {
 	for _, k := range u.funcs {
 		d := t.decls[k]
 		if d == nil || d.Body == nil {
-			return "", fmt.Errorf("%s: listed function %s has disappeared", filepath.Join(u.dir, u.file), k)
+			return "", "", fmt.Errorf("%s: listed function %s has disappeared", filepath.Join(u.dir, u.file), k)
 		}
 		t.fns[k] = t.newFn(k, d)
 	}
+	if skip != nil {
+		t.discover(skip)
+	}
 	t.shapes()
-	for _, k := range u.funcs {
+	for _, k := range t.keys() {
 		t.translate(t.fns[k])
 	}
-	return t.emit(), nil
+	return t.emit(), "", nil
+}
+
+// keys: the listed functions, then the helpers in alphabetical order.
+func (t *tr) keys() []string {
+	out := append([]string{}, t.unit.funcs...)
+	var aux []string
+	for k := range t.aux {
+		aux = append(aux, k)
+	}
+	sort.Strings(aux)
+	return append(out, aux...)
+}
+
+// discover adds to t.fns the functions and methods (with a body, in this package) that the functions already there
+// call: plain functions, and methods called on the receiver.
+func (t *tr) discover(skip map[string]bool) {
+	for changed := true; changed; {
+		changed = false
+		for _, k := range t.keys() {
+			f := t.fns[k]
+			ast.Inspect(f.d.Body, func(n ast.Node) bool {
+				call, ok := n.(*ast.CallExpr)
+				if !ok {
+					return true
+				}
+				key := ""
+				switch x := call.Fun.(type) {
+				case *ast.Ident:
+					if x.Obj == nil || x.Obj.Kind == ast.Fun {
+						key = x.Name
+					}
+				case *ast.SelectorExpr:
+					if id, ok := x.X.(*ast.Ident); ok && f.recv != nil && id.Obj == f.recv {
+						key = f.recvT + "." + x.Sel.Name
+					}
+				}
+				d := t.decls[key]
+				if key == "" || d == nil || d.Body == nil || t.fns[key] != nil || skip[key] {
+					return true
+				}
+				func() {
+					defer func() {
+						if r := recover(); r != nil {
+							if _, ok := r.(failure); !ok {
+								panic(r)
+							}
+							skip[key] = true // its signature is outside the subset
+						}
+					}()
+					t.fns[key] = t.newFn(key, d)
+					t.aux[key] = true
+					changed = true
+				}()
+				return true
+			})
+		}
+	}
 }
 
 func declKey(d *ast.FuncDecl) string {
@@ -278,6 +370,11 @@ func (t *tr) emit() string {
 		w("\n(* %s *)\n%s\n", comment(t.src(f.d)), f.text)
 	}
 	w("\nEnd Gen.\n")
+	for _, f := range t.order {
+		if t.aux[f.key] {
+			w("#[export] Hint Unfold %s : gen_aux. (* a helper of the listed functions: the lemmas unfold it *)\n", f.coq)
+		}
+	}
 	return b.String()
 }
 
